@@ -16,6 +16,38 @@ EXPL = ("Decided on the MIR of Writer::prepare_changing_distance and its helpers
         "searchability after the rebuild beyond C01/C02's clauses.")
 
 
+def r_reencode_value(ctx, fam=None):
+    """value written by the metric change: Leaf{header: ND::new_header(&v), vector: v} with v from the entry's own truncated to_vec"""
+    F = ctx.F
+    if fam is None:
+        f = F.one('writer::Writer::<D>::prepare_changing_distance')
+        if not ctx.need(f is not None, 'R-REENCODE', 'Writer::prepare_changing_distance'):
+            return
+        fam = F.reach([f])
+    for g in fam.values():
+        for (_g, c, op) in cursor_ops(F, [g]):
+            if op in ('put_current', 'put_current_with_options') and g.path.startswith('writer::'):
+                val = c.arg_term(len(c.args) - 1)
+                leaf = paths.agg_fields(val, 'node::Leaf')
+                good = False
+                why = show(val)[:120]
+                if leaf:
+                    h = strip(leaf['header'])
+                    v = strip(leaf['vector'])
+                    hc = g.call_at(h[3]) if h[0] == 'call' else None
+                    good = (h[0] == 'call' and h[1].endswith('Distance::new_header') and hc is not None and hc.gnames[:1] == ['ND']
+                            and same(h[2][0], leaf['vector'])
+                            and v[0] == 'call' and v[1].endswith('::from_vec')
+                            and any(s[0] == 'call' and s[1].endswith('UnalignedVector::<Codec>::to_vec') for s in walk(v))
+                            and any(s[0] == 'call' and s[1].endswith('Iterator::next') for s in walk(v)))
+                    kt = c.arg_term(len(c.args) - 2)
+                    good = good and any(s[0] == 'call' and s[1].endswith('Iterator::next') for s in walk(kt))
+                    enc = g.call_at(c.bb)
+                    good = good and 'NodeCodec<ND>' in (' '.join(enc.gnames) + enc.resolved)
+                ctx.check(good, 'R-REENCODE', g.path + '/leaf-value', c.loc(), 'Leaf{header: ND::new_header(&v), vector: v} of the entry itself, encoded with NodeCodec<ND>',
+                          'the re-encoded leaf is not built from the entry\'s own vector with the new metric\'s header/codec (%s)' % why)
+
+
 def run(ctx):
     ctx.explanation = EXPL
     ctx.trusted = ['rustc nightly MIR construction', 'heed cursor put_current/del_current semantics', 'TypeId equality is type equality']
@@ -98,29 +130,7 @@ def run(ctx):
                  'changing the metric does not delete every tree node of the old forest')
     from_changed(loop_pred('p-item', ('put_current', 'put_current_with_options')), 'every item re-encoded in place', 'R-REENCODE',
                  'changing the metric skips re-encoding (some) items: their headers/vectors keep the old metric\'s representation')
-    # value written: Leaf{header: ND::new_header(&v), vector: v} with v from the entry's own truncated to_vec
-    for g in fam.values():
-        for (_g, c, op) in cursor_ops(F, [g]):
-            if op in ('put_current', 'put_current_with_options') and g.path.startswith('writer::'):
-                val = c.arg_term(len(c.args) - 1)
-                leaf = paths.agg_fields(val, 'node::Leaf')
-                good = False
-                why = show(val)[:120]
-                if leaf:
-                    h = strip(leaf['header'])
-                    v = strip(leaf['vector'])
-                    hc = g.call_at(h[3]) if h[0] == 'call' else None
-                    good = (h[0] == 'call' and h[1].endswith('Distance::new_header') and hc is not None and hc.gnames[:1] == ['ND']
-                            and same(h[2][0], leaf['vector'])
-                            and v[0] == 'call' and v[1].endswith('::from_vec')
-                            and any(s[0] == 'call' and s[1].endswith('UnalignedVector::<Codec>::to_vec') for s in walk(v))
-                            and any(s[0] == 'call' and s[1].endswith('Iterator::next') for s in walk(v)))
-                    kt = c.arg_term(len(c.args) - 2)
-                    good = good and any(s[0] == 'call' and s[1].endswith('Iterator::next') for s in walk(kt))
-                    enc = g.call_at(c.bb)
-                    good = good and 'NodeCodec<ND>' in (' '.join(enc.gnames) + enc.resolved)
-                ctx.check(good, 'R-REENCODE', g.path + '/leaf-value', c.loc(), 'Leaf{header: ND::new_header(&v), vector: v} of the entry itself, encoded with NodeCodec<ND>',
-                          'the re-encoded leaf is not built from the entry\'s own vector with the new metric\'s header/codec (%s)' % why)
+    r_reencode_value(ctx, fam)
     # no item deleted, nothing else written
     for g in fam.values():
         if not g.path.startswith('writer::'):
@@ -144,4 +154,5 @@ def run(ctx):
     C06.r_names(ctx)
     # the statement refers to C01 ("a forest satisfying C01"): C01's structural clauses are re-checked by this check too
     from props import C01
-    C01.rules(ctx)
+    import premises
+    premises.forest(ctx)
